@@ -127,9 +127,7 @@ def run (j : Json) : Except String Json := do
   let progs := modelProgs tbl sites calls
   let n := progs.length
   -- initial names are given per original cell: they hold for the shared cell and for every private copy of it
-  let sh : Shared := fun c =>
-    let orig := if c % 2 == 0 then c / 2 else (c / 2) / n
-    (Shared.ofList init) orig
+  let sh : Shared := instStore n (Shared.ofList init)
   let runs := scheds.map fun s =>
     let cfg := Typedpy.Sched.run (Cfg.init sh progs) (expand progs s ++ completion progs)
     Json.arr ((List.range n).map fun i => outcomeToJson (resultAt cfg i)).toArray
